@@ -483,8 +483,11 @@ QL_FORMS = ["A<> {0}", "A[] {0}", "E<> {0}", "E[] {0}", "{0} --> {1}", "A[{0} U 
 QL_WRAP = ["{S}", "control: {S}", "E<> control: {S}", "control_t*({2}, {3}): {S}", "control_t*({2}): {S}", "control_t*: {S}",
            "{{{L}}} control: {S}", "{{ }} control: {S}"]
 QL_OPT = ["sup: {L}", "inf: {L}", "bounds: {L}", "sup{{{0}}}: {L}", "inf{{{0}}}: {L}", "bounds{{{0}}}: {L}"]
+# the statistical forms: bound type x optional run count x body
+QL_SMC = ["Pr[{B}](<> {0})", "Pr[{B}]([] {0})", "Pr[{B}]({0} U {1})", "E[{B}](max: {0})", "E[{B}](min: {0})", "simulate[{B}]{{{L}}}"]
+QL_BOUNDS = ["<={2}", "#<={2}", "cl<={2}", "<={2}; {R}", "#<={2}; {R}", "cl<={2}; {R}"]
 QL_KINDS = {"AF", "AG", "EF", "EG", "LEADS_TO", "A_UNTIL", "A_WEAK_UNTIL", "CONTROL", "EF_CONTROL", "CONTROL_TOPT", "CONTROL_TOPT_DEF1",
-            "CONTROL_TOPT_DEF2", "PO_CONTROL", "SUP_VAR", "INF_VAR", "BOUNDS_VAR"}
+            "CONTROL_TOPT_DEF2", "PO_CONTROL", "SUP_VAR", "INF_VAR", "BOUNDS_VAR", "PROBA_BOX", "PROBA_DIAMOND", "PROBA_EXP", "SIMULATE"}
 
 
 def run_query_layer(ctx, b, drv, texts, model_bugs):
@@ -510,6 +513,12 @@ def run_query_layer(ctx, b, drv, texts, model_bugs):
             ops = [r.choice(pool)]
             lst = ", ".join(r.choice(pool if r.random() < 0.5 else small) for _ in range(r.randint(1, 5)))
             queries.append(form.replace("{L}", lst).format(*ops))
+    for form in QL_SMC:
+        for bnd in QL_BOUNDS:
+            for _ in range(n // 4):
+                ops = [r.choice(pool if r.random() < 0.6 else small) for _ in range(3)]
+                lst = ", ".join(r.choice(small) for _ in range(r.randint(1, 4)))
+                queries.append(form.replace("{B}", bnd).replace("{L}", lst).replace("{R}", str(r.choice([0, 1, 2, 7, 50]))).format(*ops))
     queries = sorted(set(queries), key=lambda qq: (len(qq), qq))
     rc, out, err = c02.run_lines(har, queries)
     st = dict(queries=len(queries), accepted_by_library=0, compared=0, tree_disagreements=0, print_disagreements=0, wf=0, not_wf=0,
@@ -558,6 +567,10 @@ def run_query_layer(ctx, b, drv, texts, model_bugs):
             known = "binder:quantifier-type-printed-with-type_t::str"
         elif "--2147483648" in s1.replace(" ", ""):
             known = "text:minus-minus-2147483648"
+        if not known and not wf and kind in ("PROBA_BOX", "PROBA_DIAMOND", "PROBA_EXP", "SIMULATE") and re.match(r"(Pr|E|simulate)\[\s*[^<#\s]", qq):
+            # `l<=e` bounds are printed with both sides bare (print_bound_type, get(2).print): an operand that needs parentheses there
+            # (`cl <= (a && b)`) comes back as another text -- Bnd.wf of the model excludes exactly these
+            known = "query:bound-operand-printed-without-parentheses"
         if not lexeq:
             st["print_disagreements"] += 1
             if impl_ok and wf and not known:
